@@ -63,6 +63,7 @@ class Sim:
         self.suspended = 0
         self.fifo_content = {}  # world-relative path -> what the (one-shot) writer wrote
         self.fifo_opens = {}
+        self.fifo_one_shot = False  # opt-in per scenario (world["fifo_one_shot"]); otherwise a FIFO is simply at EOF
 
     # ---- canonicalisation -------------------------------------------------------------------
     def canon(self, x):
@@ -389,7 +390,7 @@ def sim_open(file, mode="r", *a, **k):
             n = s.fifo_opens.get(rp, 0) + 1
             s.fifo_opens[rp] = n
             s.probe("open-fifo")
-            if n > 1:
+            if n > 1 and s.fifo_one_shot:
                 s.probe("fifo-opened-again")
                 s.emit("fifo-would-block", s.canon(rp))
                 raise WouldBlockForever("second open() of the one-shot FIFO %s would block for ever" % s.canon(rp))
